@@ -157,6 +157,12 @@ class ImageFormation(HoloPyObject):
         coords = {
             point_or_flat: flattened_schema.coords[point_or_flat],
             vector: ['x', 'y', 'z']}
+        if point_or_flat == 'point':
+            # the positions of explicit points are ordinary coordinates along
+            # 'point' (not levels of an index, as for 'flat'): keep them too
+            coords.update({
+                name: coord for name, coord in flattened_schema.coords.items()
+                if coord.dims == (point_or_flat,) and name != point_or_flat})
         scattered_field = xr.DataArray(
             scattered_field, dims=[point_or_flat, vector], coords=coords,
             attrs=schema.attrs)
